@@ -311,7 +311,9 @@ def make_subset_data(data, pixels=None, return_selection=False, seed=None):
     """
     if pixels is None:
         if return_selection:
-            return data, np.arange(flat(data).sizes['flat'])
+            pixels = flat(data)
+            axis = 'flat' if 'flat' in pixels.dims else 'point'
+            return data, np.arange(pixels.sizes[axis])
         return data
     if seed is not None:
         np.random.seed(seed)
